@@ -72,6 +72,7 @@ type vfCred struct {
 	Proven  int
 	AuthAt  time.Time
 	Valid   bool
+	Truly   int  // factors the model saw this lineage's user really prove (cookies: may be less than what the cookie carries)
 	Certain bool // well inside its validity window (token times are whole seconds): only then MUST it be served
 }
 
@@ -98,7 +99,7 @@ func (m *vfModel) credsOf(ctx *vfReqCtx) []vfCred {
 				valid = valid && true
 			}
 			certain := now.Before(ci.Exp.Add(-time.Second)) && !now.Before(ci.AuthAt.Add(time.Second)) && !time.Now().After(ci.Exp.Add(-time.Second))
-			out = append(out, vfCred{Kind: "cookie", Subject: ci.Subject, Proven: ci.Carried, AuthAt: ci.AuthAt, Valid: valid, Certain: valid && certain})
+			out = append(out, vfCred{Kind: "cookie", Subject: ci.Subject, Proven: ci.Carried, Truly: ci.Proven, AuthAt: ci.AuthAt, Valid: valid, Certain: valid && certain})
 		}
 	}
 	if ctx.req.Cert != nil && !ctx.req.NoTLS {
@@ -113,12 +114,12 @@ func (m *vfModel) credsOf(ctx *vfReqCtx) []vfCred {
 				// check): that moment, not the day the 45-day certificate was minted, starts the 24 hours
 				at = now
 			}
-			out = append(out, vfCred{Kind: a.Kind, Subject: a.Subject, Proven: p, AuthAt: at, Valid: true})
+			out = append(out, vfCred{Kind: a.Kind, Subject: a.Subject, Proven: p, Truly: p, AuthAt: at, Valid: true})
 		}
 	}
 	for _, pc := range ctx.pwChecks {
 		if pc.OK {
-			out = append(out, vfCred{Kind: "basic", Subject: pc.User, Proven: AuthTypePassword, AuthAt: now, Valid: true})
+			out = append(out, vfCred{Kind: "basic", Subject: pc.User, Proven: AuthTypePassword, Truly: AuthTypePassword, AuthAt: now, Valid: true})
 		}
 	}
 	return out
@@ -175,6 +176,11 @@ func (m *vfModel) observeCertgen(ctx *vfReqCtx, in *vfIntent, resp *vfResp) {
 		if !justified && !unjudged {
 			w.violate("C01", "issued-unjustified", "issued-unjustified:"+credKinds(creds, cr.URLUser),
 				fmt.Sprintf("certificate for %s (type %s, method %s) issued; listed=%v creds=%s", cr.URLUser, cr.Type, cr.Method, w.cfg.CertBackends, credString(creds)))
+		}
+		if justified && usedCred != nil && usedCred.Kind == "cookie" && !(usedCred.Truly&AuthTypeU2F != 0 || usedCred.Truly&listed != 0) {
+			// the cookie carries an acceptable factor, but nobody proved that factor for this session's user
+			w.violate("C01", "issued-on-unproven-level", "issued-on-unproven-level",
+				fmt.Sprintf("certificate for %s issued on a session carrying %s of which only %s was really proven by that user; listed=%v", cr.URLUser, vfLevelString(usedCred.Proven), vfLevelString(usedCred.Truly), w.cfg.CertBackends))
 		}
 		if cr.Method != "POST" {
 			w.violate("C01", "issued-non-post", "issued-non-post:"+cr.Method, "certificate issued to a "+cr.Method+" request")
